@@ -62,9 +62,9 @@ type session struct {
 	host   []hostGlobal
 }
 
-func newSession() (*session, error) {
+func newSession(deadline time.Duration) (*session, error) {
 	s := &session{stdout: &rz.OutFile{}}
-	s.ctx, s.cancel = context.WithTimeout(context.Background(), 60*time.Second)
+	s.ctx, s.cancel = context.WithTimeout(context.Background(), deadline)
 	return s, nil
 }
 
@@ -260,15 +260,45 @@ func rejectPiece(kind string, k int, consts, funcs []string) piece {
 }
 
 // runHistory evaluates one history on the real protocol and on the incremental model and compares.
+// runHistory: a history whose session ran into its wall-clock deadline is repeated once with a five times
+// longer one (the pieces are small: on a loaded machine the first deadline can pass without any fault);
+// only a second expiry is reported, as a hang.
 func runHistory(pieces []piece) (sig, detail, script string, st struct{ pieces, rejected, failed, globals, hosted int }, decided bool, herr error) {
+	var timedOut bool
+	sig, detail, script, st, decided, herr, timedOut = runHistoryT(pieces, 60*time.Second)
+	if timedOut {
+		sig, detail, script, st, decided, herr, timedOut = runHistoryT(pieces, 300*time.Second)
+		if timedOut {
+			return "incremental:hang", "the session did not finish within 60 s and, repeated, within 300 s\n" + detail, script, st, true, nil
+		}
+	}
+	return
+}
+
+func runHistoryT(pieces []piece, deadline time.Duration) (sig, detail, script string, st struct{ pieces, rejected, failed, globals, hosted int }, decided bool, herr error, timedOut bool) {
+	defer func() {
+		if timedOut {
+			sig, decided = "", false
+		}
+	}()
+	sig, detail, script, st, decided, herr, timedOut = runHistory1(pieces, deadline)
+	return
+}
+
+func runHistory1(pieces []piece, deadline time.Duration) (sig, detail, script string, st struct{ pieces, rejected, failed, globals, hosted int }, decided bool, herr error, timedOut bool) {
 	in := gen.NewInterp()
 	in.LenientNames = true
 	in.Start()
-	sess, err := newSession()
+	sess, err := newSession(deadline)
 	if err != nil {
-		return "", "", "", st, false, err
+		return "", "", "", st, false, err, false
 	}
 	defer sess.cancel()
+	defer func() {
+		if sess.ctx.Err() != nil {
+			timedOut = true
+		}
+	}()
 	var sb strings.Builder
 	d20Seen := false
 	for pi, pc := range pieces {
@@ -293,10 +323,10 @@ func runHistory(pieces []piece) (sig, detail, script string, st struct{ pieces, 
 				o, ok = in.RunPiece(pc.Stmts)
 			}()
 			if herr != nil {
-				return "", "", sb.String(), st, false, herr
+				return "", "", sb.String(), st, false, herr, false
 			}
 			if !ok {
-				return "", "", sb.String(), st, false, nil
+				return "", "", sb.String(), st, false, nil, false
 			}
 			hosted := false
 			if o.Err == "" && o.Out == "" {
@@ -321,10 +351,10 @@ func runHistory(pieces []piece) (sig, detail, script string, st struct{ pieces, 
 			}
 			got, goPanic := sess.eval(src)
 			if goPanic != "" {
-				return "go-panic-escaped", mon.Truncate(goPanic, 1500), sb.String(), st, true, nil
+				return "go-panic-escaped", mon.Truncate(goPanic, 1500), sb.String(), st, true, nil, false
 			}
 			if got.Status != want.Status || got.Out != want.Out || (want.Status == "accepted" && got.Value != want.Value) || (want.Status == "failed" && got.Err != want.Err) {
-				return "incremental:first-declaration", fmt.Sprintf("piece %d: model %+v, real %+v", pi, want, got), sb.String(), st, true, nil
+				return "incremental:first-declaration", fmt.Sprintf("piece %d: model %+v, real %+v", pi, want, got), sb.String(), st, true, nil, false
 			}
 			continue
 		}
@@ -348,10 +378,10 @@ func runHistory(pieces []piece) (sig, detail, script string, st struct{ pieces, 
 				o, ok = in.RunPiece(pc.Stmts)
 			}()
 			if herr != nil {
-				return "", "", sb.String(), st, false, herr
+				return "", "", sb.String(), st, false, herr, false
 			}
 			if !ok {
-				return "", "", sb.String(), st, false, nil
+				return "", "", sb.String(), st, false, nil, false
 			}
 			if o.Err != "" {
 				want = pieceObs{Status: "failed", Err: o.Err, Out: o.Out}
@@ -362,7 +392,7 @@ func runHistory(pieces []piece) (sig, detail, script string, st struct{ pieces, 
 		}
 		got, goPanic := sess.eval(src)
 		if goPanic != "" {
-			return "go-panic-escaped", mon.Truncate(goPanic, 1500), sb.String(), st, true, nil
+			return "go-panic-escaped", mon.Truncate(goPanic, 1500), sb.String(), st, true, nil, false
 		}
 		mismatch := ""
 		switch {
@@ -388,7 +418,7 @@ func runHistory(pieces []piece) (sig, detail, script string, st struct{ pieces, 
 				kind = "piece-error"
 			}
 			if d20Seen && strings.Contains(got.Out, "RJ") && !strings.Contains(want.Out, "RJ") {
-				return "rejected-piece-effects-run-later", mismatch, sb.String(), st, true, nil
+				return "rejected-piece-effects-run-later", mismatch, sb.String(), st, true, nil, false
 			}
 			after := "after-accepted"
 			for k := pi - 1; k >= 0; k-- {
@@ -398,7 +428,7 @@ func runHistory(pieces []piece) (sig, detail, script string, st struct{ pieces, 
 				}
 				break
 			}
-			return "incremental:" + kind + ":" + after, mismatch, sb.String(), st, true, nil
+			return "incremental:" + kind + ":" + after, mismatch, sb.String(), st, true, nil, false
 		}
 	}
 	// final globals
@@ -419,12 +449,12 @@ func runHistory(pieces []piece) (sig, detail, script string, st struct{ pieces, 
 		st.globals++
 		if got != final[n] {
 			if d20Seen {
-				return "rejected-piece-effects-run-later", fmt.Sprintf("final global %s: model %s, real %s", n, final[n], got), sb.String(), st, true, nil
+				return "rejected-piece-effects-run-later", fmt.Sprintf("final global %s: model %s, real %s", n, final[n], got), sb.String(), st, true, nil, false
 			}
-			return "incremental:final-global", fmt.Sprintf("final global %s: model %s, real %s", n, final[n], got), sb.String(), st, true, nil
+			return "incremental:final-global", fmt.Sprintf("final global %s: model %s, real %s", n, final[n], got), sb.String(), st, true, nil, false
 		}
 	}
-	return "", "", sb.String(), st, true, nil
+	return "", "", sb.String(), st, true, nil, false
 }
 
 func topNames(p *gen.Program) (consts, funcs []string) {
